@@ -87,7 +87,10 @@ class AwkwardError(Exception):
         self.msg = msg
 
 
-RAISED = (ValueError, KeyError, IndexError, UserError, AssertionError, StopIteration, AttributeError, OSError, AwkwardError)
+# MemoryError / RecursionError: conditions a library might be tempted to treat as "of the node, not of the command" - a
+# command whose method raises them on every replica is stepped over like any other (C12)
+RAISED = (ValueError, KeyError, IndexError, UserError, AssertionError, StopIteration, AttributeError, OSError, AwkwardError,
+          MemoryError, RecursionError)
 
 
 class KillNow(BaseException):
@@ -726,7 +729,10 @@ class Sim(object):
         q = list(getattr(g('commandsQueue'), '_FastQueue__queue'))
         out += L([list(self.cid_of_command(c)) + [len(c)] + self.cb_enc(cb) for c, cb in q])
         wc = g('commandsWaitingCommit')
-        out += L([[idx] + L([[t] + self.cb_enc(cb) for t, cb in wc[idx]]) for idx in sorted(wc) if wc[idx]])
+        # (a value that is one (term, callback) pair instead of a list of them is observed as a one-element list: the
+        # shape of a private table is not what is compared)
+        lst = lambda v: v if isinstance(v, list) else [v]
+        out += L([[idx] + L([[t] + self.cb_enc(cb) for t, cb in lst(wc[idx])]) for idx in sorted(wc) if wc[idx]])
         out += [g('commandsLocalCounter')]
         wr = g('commandsWaitingReply')
         out += L([[k] + self.cb_enc(wr[k]) for k in sorted(wr)])
